@@ -48,7 +48,7 @@ func wideOK(in []int64) bool {
 	if w != 1 && w != 2 {
 		return false
 	}
-	if lo < 0x80 || n < 1 || lo+n > 0x10FFFF || (lo < 0xE000 && lo+n > 0xD800) {
+	if lo < 0 || n < 1 || lo+n > 0x10FFFF || (lo < 0xE000 && lo+n > 0xD800) {
 		return false
 	}
 	if (w == 1 && n > 200000) || (w == 2 && n > 400) {
@@ -95,7 +95,8 @@ func wideImpl(in []int64) (out []int64) {
 // wideGen produces cases for the two shapes; kind is -5 or -6
 func wideGen(c *Ctx, kind int64) {
 	type shape struct{ lo, n, w int64 }
-	shapes := []shape{{0x10000, 50000, 1}, {0x100, 300, 2}}
+	// ... and nodes holding the whole ASCII range (NUL and DEL included), one short of it, and reaching beyond it
+	shapes := []shape{{0x10000, 50000, 1}, {0x100, 300, 2}, {0, 128, 1}, {1, 127, 1}, {0, 200, 1}, {0, 127, 1}}
 	if !c.Quick() {
 		shapes = append(shapes, shape{0x10000, 70000, 1}, shape{0x4E00, 20992, 1}, shape{0x100, 260, 2})
 	}
@@ -111,6 +112,9 @@ func wideGen(c *Ctx, kind int64) {
 				text[j] = 'a' + int64(r.Intn(3))
 			case 1:
 				text[j] = sh.lo - 1
+				if text[j] < 0 {
+					text[j] = 0x7f
+				}
 			case 2:
 				text[j] = sh.lo + sh.n
 			case 3:
